@@ -645,3 +645,36 @@ theorem run_inv (sp : Char → Bool) (f : Text → Text) (ops : List Op) (b : Bu
   | cons op ops ih => simp only [List.foldl_cons]; exact ih _ (step_inv sp f b h op)
 
 end Ptk.C01
+
+/-! ### views -/
+namespace Ptk.C01
+open Ptk.Py
+
+/-- after any edit, `Buffer.text`, `Buffer.document.text` and the working line at the working index
+    are the same string (the edited one), the document's cursor is the buffer's cursor, and every
+    other history entry is untouched. -/
+theorem views_agree (w : WBuf) (h : w.idx < w.work.length) (e : Buf → Buf) :
+    let b := e { text := w.work[w.idx], cur := w.cur }
+    (w.edit e).text? = some b.text ∧
+    (w.edit e).document? = some (b.text, b.cur) ∧
+    (w.edit e).work[(w.edit e).idx]? = some b.text ∧
+    (w.edit e).work.length = w.work.length ∧
+    ∀ j, j ≠ w.idx → (w.edit e).work[j]? = w.work[j]? := by
+  intro b
+  have ht : w.work[w.idx]? = some w.work[w.idx] := List.getElem?_eq_getElem h
+  have he : w.edit e = { work := w.work.set w.idx b.text, idx := w.idx, cur := b.cur } := by
+    simp only [WBuf.edit, WBuf.text?, ht, WBuf.setText, b]
+  rw [he]
+  simp only [WBuf.text?, WBuf.document?]
+  refine ⟨?_, ?_, ?_, ?_, ?_⟩
+  · simp [h]
+  · simp [h]
+  · simp [h]
+  · exact List.length_set
+  · intro j hj
+    exact List.getElem?_set_ne (Ne.symm hj)
+
+example : (WBuf.edit { work := [['a'], ['b']], idx := 1, cur := 1 }
+    (fun b => insertText b ['x'] false true)).work = [['a'], ['b', 'x']] := by decide
+
+end Ptk.C01
